@@ -30,10 +30,14 @@ REQUIRED_HOOKS = [
     "get_cov_radii", "generate_real_spherical_harmonics", "generate_real_spherical_harmonics_scipy", "generate_derivative_real_spherical_harmonics", "solid_harmonics",
     "convert_cart_to_sph", "convert_derivative_from_spherical_to_cartesian", "generate_orders_horton_order", "dipole_moment_of_molecule",
     "BeckeRTransform.transform_1d_grid", "InverseRTransform.transform", "BeckeRTransform.find_parameter",
+    "Grid.points=", "Grid.weights=", "OneDGrid.points=", "OneDGrid.weights=", "LocalGrid.weights=", "PeriodicGrid.points=", "PeriodicGrid.weights=",
+    "AtomGrid.weights=", "MolGrid.points=", "MolGrid.weights=", "UniformGrid.points=", "UniformGrid.weights=", "Tensor1DGrids.weights=", "AngularGrid.weights=",
+    "LinearInfiniteRTransform.set_maximum_parameter_b",
 ]
 REQUIRED_FAMILIES = ["api-aliasing", "ode-callbacks", "ode-data", "poisson", "transforms"]
 BUDGET = {"quick": 1200, "thorough": 4800}
 MODES = ("fresh", "readonly", "view", "alias")
+ORDERS = ("ascending", "descending", "shuffled", "repeated")
 RULE = (
     "Generic byte-snapshot monitor on every public callable of every grid module (183 wrapped; blake2b of bytes+dtype+shape+writeable flag of every "
     "array reachable from args/kwargs through lists/tuples/dicts/attributes of grid objects, structure of the containers, every array returned by a "
@@ -264,6 +268,47 @@ class Run:
         self.npick += 1
         return choices[(self.salt + self.npick) % len(choices)]
 
+    def order(self):
+        """Order of the values inside arrays whose order the API leaves free: rotates with replica + argument pattern."""
+        return ORDERS[(self.salt // len(MODES) + self.salt) % len(ORDERS)]
+
+    def arrange(self, values, order=None):
+        """Re-order (ascending / descending / shuffled / with repeated values) - the multiset is what the caller chose,
+        the order must be nobody's business but the caller's."""
+        order = order or self.order()
+        v = np.sort(np.asarray(values), axis=0)
+        if order == "repeated" and len(v) > 3:
+            v = v.copy()
+            v[1], v[-1] = v[0], v[-2]
+        if order == "descending":
+            v = v[::-1].copy()
+        elif order in ("shuffled", "repeated"):
+            v = v[np.random.default_rng([self.salt, len(v)]).permutation(len(v))]
+        return v
+
+    def use_setters(self, obj, label, rng):
+        """Every public property with a setter (found by introspection) is assigned a fresh caller array of the same
+        shape; returns the names used. What was handed to the constructor / to earlier calls is compared afterwards."""
+        used = []
+        cls = type(obj)
+        for name in sorted(n for n in dir(cls) if not n.startswith("_")):
+            prop = getattr(cls, name, None)
+            if not isinstance(prop, property) or prop.fset is None:
+                continue
+            cur = getattr(obj, name)
+            if not isinstance(cur, np.ndarray) or cur.dtype.kind != "f":
+                continue
+            new = self.mk(np.array(cur)[::-1] * (1.0 + 0.01 * rng.random()) + (0.003 if name == "weights" else 0.0), f"{label}.new-{name}")
+            ok = False
+            with self.ctx.guard("no-exception", f"{cls.__name__}.{name}=[{self.mk.mode}]"):
+                setattr(obj, name, new)
+                ok = True
+            if ok:
+                used.append(name)
+                self.ctx.count("property-setters-exercised")
+                self.keep(f"{label}.{name}-after-set", getattr(obj, name))
+        return used
+
     def call(self, subject, fn, *a, **k):
         out = None
         with self.ctx.guard("no-exception", f"{subject}[{self.mk.mode}]"):
@@ -347,13 +392,30 @@ def scn_basegrid(R, rng):
         R.keep("mom-orders", mo[1])
     R.call("Grid.save", g.save, _tmp("grid.npz"))
     R.keep("g.props", [g.size, float(g.points[0, 0]), float(g.weights[0])])
+    # index arrays / centres in every order (descending, shuffled, repeated entries)
+    for od in ORDERS:
+        sub = R.call("Grid.__getitem__", g.__getitem__, mk(R.arrange(np.arange(1, min(n, 9)), od), "index-" + od))
+        if sub is not None:
+            R.keep("getitem-" + od, sub.weights)
+    R.keep("mom-repeated-centres", R.call("Grid.moments", g.moments, 1, mk(R.arrange(np.vstack([np.asarray(cen), np.asarray(cen)[:1]])), "centers-arranged"), fv, "radial"))
+    # a second grid on the SAME caller arrays; then the first one is changed through its public setters
+    twin = R.call("Grid", Grid, pts, w)
+    before = None if twin is None else R.call("Grid.integrate", twin.integrate, f1)
+    R.use_setters(g, "g", rng)
+    R.keep("g.int-after-set", R.call("Grid.integrate", g.integrate, f1))
+    if twin is not None:
+        after = R.call("Grid.integrate", twin.integrate, f1)
+        R.keep("twin", [before, after])
+        R.ctx.check("caller-data-unchanged-after-sequence", "basegrid:grid-sharing-the-caller-arrays", before == after and twin.weights is w and twin.points is pts, sig="twin-grid-changed-by-setter-of-the-other", detail={"before": before, "after": after})
     ind = mk(np.arange(n), "indices")
     lg = R.call("LocalGrid", LocalGrid, pts, w, c, ind)
     if lg is not None:
         R.keep("lg-int", R.call("LocalGrid.integrate", lg.integrate, f1))
         R.call("LocalGrid.save", lg.save, _tmp("lgrid.npz"))
+        R.use_setters(lg, "lg", rng)
+        R.keep("lg-int-after-set", R.call("LocalGrid.integrate", lg.integrate, f1))
     # one-dimensional grids: points and weights may be the same object
-    x, wx = mk.pair(np.sort(rng.uniform(0.05, 0.95, n)), "x1d")
+    x, wx = mk.pair(R.arrange(rng.uniform(0.05, 0.95, n)), "x1d")  # nodes of a hand-made 1-D grid: any order inside the domain
     dom = mk.obj([0.0, 1.0], "domain")
     og = R.call("OneDGrid", OneDGrid, x, wx, dom)
     if og is not None:
@@ -365,6 +427,12 @@ def scn_basegrid(R, rng):
         lg = R.call("OneDGrid.get_localgrid", og.get_localgrid, 0.5, 0.2)
         if lg is not None:
             R.keep("1d-local", lg.points)
+    if og is not None:
+        parent = R.call("OneDGrid.get_localgrid", og.get_localgrid, 0.5, np.inf)  # shares points/weights with its parent
+        R.use_setters(og, "og", rng)
+        R.keep("og.int-after-set", R.call("OneDGrid.integrate", og.integrate, f1))
+        if parent is not None:
+            R.keep("og.local-inf", parent.weights)
     og2 = R.call("OneDGrid", OneDGrid, x, wx)  # without a domain
     if og2 is not None:
         R.keep("1d-nodomain", [og2.size, og2.domain is None])
@@ -427,6 +495,7 @@ def scn_transforms(R, rng):
                 xs = xs + 1.0
             w0 = np.ones(n)
             dom = (0, np.inf) if name != "HyperbolicRTransform" else (0, 40.0)
+        xs = R.arrange(xs)  # element-wise maps and hand-made 1-D grids admit any order of the nodes
         x = mk(xs, "x")
         r = None
         for meth in ("transform", "deriv", "deriv2", "deriv3"):
@@ -438,7 +507,7 @@ def scn_transforms(R, rng):
             rr = mk(np.array(r, dtype=float), "r")
             R.keep(f"{name}.inverse-all", R.call(f"{name}.inverse", tf.inverse, rr))
             # derivatives of the inverse are rejected where dr/dx = 0 or r = inf (the end points): interior values only
-            r = np.array(r, dtype=float)[1:-1] if ends else r
+            r = np.array(r, dtype=float)[(xs != lo) & (xs != hi)] if ends else r
             rr = mk(np.array(r, dtype=float), "r-interior")
             for meth in ("inverse", "deriv_inverse", "deriv2_inverse", "deriv3_inverse"):
                 R.keep(f"{name}.{meth}", R.call(f"{name}.{meth}", getattr(tf, meth), rr))
@@ -456,8 +525,14 @@ def scn_transforms(R, rng):
                 R.keep(f"Inv{name}.{meth}", R.call(f"InverseRTransform.{meth}", getattr(itf, meth), rr))
             R.keep(f"Inv{name}.inverse", R.call("InverseRTransform.inverse", itf.inverse, x))
             R.keep(f"Inv{name}.props", [float(v) for v in np.ravel(itf.domain)] + [float(v) for v in np.ravel(itf.codomain)])
-    arr = mk(np.sort(rng.uniform(-0.99, 0.99, R.pick([21, 20]))), "fp-array")
-    R.keep("find_parameter", R.call("BeckeRTransform.find_parameter", rt.BeckeRTransform.find_parameter, arr, 0.1, 1.2))
+    for od in ORDERS:  # every order in every run (fresh, read-only, view, alias)
+        arr = mk(R.arrange(rng.uniform(-0.99, 0.99, R.pick([21, 20])), od), "fp-array-" + od)
+        R.keep("find_parameter-" + od, R.call("BeckeRTransform.find_parameter", rt.BeckeRTransform.find_parameter, arr, 0.1, 1.2))
+        for cls_ in (rt.LinearInfiniteRTransform, rt.ExpRTransform, rt.PowerRTransform):  # state-changing public operation
+            t_ = cls_(0.1, 9.0)
+            xb = mk(R.arrange(rng.uniform(0.5, 30.0, 7), od), "b-array-" + od)
+            R.call(cls_.__name__ + ".set_maximum_parameter_b", t_.set_maximum_parameter_b, xb)
+            R.keep(cls_.__name__ + ".b-" + od, [t_.b])
     # UniformInteger based radial grid as the library builds it by default
     from grid.onedgrid import UniformInteger
 
@@ -532,11 +607,12 @@ def scn_atomgrid(R, rng):
     r_sec = mk.obj([0.5, 1.0, 2.5], "r_sectors-list")
     d_sec = mk.obj([3, 9, 5, 3], "d_sectors-list")
     atp = R.call("AtomGrid.from_pruned", AtomGrid.from_pruned, rg, 1.3, r_sec, d_sec, center=center, method=method)
-    r_sec_a, d_sec_a = mk(np.array([0.4, 1.1, 2.0]), "r_sectors-array"), mk(np.array([5, 11, 7, 3]), "d_sectors-array")
+    r_sec_a, d_sec_a = mk(R.arrange(np.array([0.4, 1.1, 2.0, 2.6])[: R.pick([3, 4])]), "r_sectors-array"), None
+    d_sec_a = mk(np.array([5, 11, 7, 3, 9])[: len(r_sec_a) + 1], "d_sectors-array")
     atp2 = R.call("AtomGrid.from_pruned", AtomGrid.from_pruned, rg, 0.9, r_sectors=r_sec_a, d_sectors=d_sec_a, center=center, rotate=7, method=method)
     s_sec = mk.obj([6, 26, 14, 6], "s_sectors-list")
     atp3 = R.call("AtomGrid.from_pruned", AtomGrid.from_pruned, rg, 1.0, r_sec, None, s_sectors=s_sec, center=center)
-    atp4 = R.call("AtomGrid.from_pruned", AtomGrid.from_pruned, rg, 1.0, r_sec_a, d_sectors=None, s_sectors=mk(np.array([6, 26, 14, 6]), "s_sectors-array"))
+    atp4 = R.call("AtomGrid.from_pruned", AtomGrid.from_pruned, rg, 1.0, r_sec_a, d_sectors=None, s_sectors=mk(np.array([6, 26, 14, 6, 38])[: len(r_sec_a) + 1], "s_sectors-array"))
     preset = ["coarse", "medium", "fine", "sg_1"][int(rng.integers(0, 4))]
     atq = R.call("AtomGrid.from_preset", AtomGrid.from_preset, int([1, 6, 8][int(rng.integers(0, 3))]), preset, rg, center)
     atq2 = R.call("AtomGrid.from_preset", AtomGrid.from_preset, R.pick([1, 6, 8, 17]), R.pick(["coarse", "medium", "fine", "veryfine", "ultrafine", "insane"]), center=center, rotate=R.pick([1, 0]))
@@ -598,6 +674,28 @@ def scn_atomgrid(R, rng):
     R.keep("at.mom", R.call("AtomGrid.moments", at.moments, R.pick([1, 2]), mk(center[None, :].copy(), "centers"), f, R.pick(["pure", "cartesian", "radial", "pure-radial"])))
     R.keep("at.props", [at.size, at.n_shells, int(at.l_max), at.rotate, len(at.method), float(np.sum(at.basis)) if at.basis is not None else 0.0, float(at.center[0]), int(at.indices[-1]), int(np.sum(at.degrees))])
     R.call("AtomGrid.save", at.save, _tmp("atgrid.npz"))
+    # radial nodes handed over in another order (descending / shuffled / repeated radii): construction and the
+    # shell-wise operations admit it (the spline-based ones need increasing radii and are not called on it)
+    from grid.basegrid import OneDGrid
+
+    ru = R.arrange(rng.uniform(0.05, 5.0, n))
+    rgu = OneDGrid(mk(ru, "rgrid-unsorted.points"), mk(rng.uniform(0.1, 0.6, n), "rgrid-unsorted.weights"), (0, np.inf))
+    atu = R.call("AtomGrid[unsorted radii]", AtomGrid, rgu, degrees=degs_arr, center=center, rotate=R.pick([0, 2]))
+    if atu is not None:
+        fu = mk(np.exp(-np.sum((atu.points - center) ** 2, axis=1)), "func_vals-unsorted")
+        R.keep("atu.int", R.call("AtomGrid.integrate", atu.integrate, fu))
+        R.keep("atu.ang", R.call("AtomGrid.integrate_angular_coordinates", atu.integrate_angular_coordinates, fu))
+        R.keep("atu.c2s", R.call("AtomGrid.convert_cartesian_to_spherical", atu.convert_cartesian_to_spherical))
+        sh = R.call("AtomGrid.get_shell_grid", atu.get_shell_grid, n - 1)
+        R.keep("atu.mom", R.call("AtomGrid.moments", atu.moments, 1, mk(center[None, :].copy(), "centers-u"), fu, "cartesian"))
+    atpu = R.call("AtomGrid.from_pruned[unsorted radii]", AtomGrid.from_pruned, rgu, 1.0, r_sec_a, d_sec_a, center=center)
+    if atpu is not None:
+        R.keep("atpu", [atpu.size, float(np.sum(atpu.weights))])
+    R.use_setters(at, "at", rng)
+    R.keep("at.int-after-set", R.call("AtomGrid.integrate", at.integrate, f))
+    if ag is not None:
+        R.use_setters(ag, "ag", rng)
+        R.keep("ag.int-after-set", R.call("AngularGrid.integrate", ag.integrate, mk(np.ones(ag.size), "ones")))
 
 
 NO_BRAGG_RADIUS = (2, 10, 18, 36, 54, 85, 86)  # elements whose tabulated Bragg-Slater radius is NaN (fallback branch of Becke)
@@ -681,6 +779,9 @@ def scn_molgrid(R, rng):
     R.keep("mg.mom", R.call("MolGrid.moments", mg.moments, R.pick([1, 2]), atcoords, f, R.pick(["cartesian", "pure", "radial", "pure-radial"])))
     R.keep("mg.props", [mg.size, int(mg.indices[-1]), float(np.sum(mg.aim_weights)), float(np.sum(mg.atweights)), float(mg.atcoords[0, 0]), 0 if mg.atgrids is None else len(mg.atgrids)])
     R.call("MolGrid.save", mg.save, _tmp("molgrid.npz"))
+    mg_set = mgs.get(("array", False)) or mg  # built from the caller's aim-weights array
+    R.use_setters(mg_set, "mg", rng)
+    R.keep("mg.int-after-set", R.call("MolGrid.integrate", mg_set.integrate, f))
     from grid.utils import dipole_moment_of_molecule
 
     R.keep("dipole", R.call("dipole_moment_of_molecule", dipole_moment_of_molecule, mg, f, atcoords, atnums))
@@ -829,6 +930,8 @@ def scn_cubic(R, rng):
         if isinstance(rd2, tuple):
             R.keep("cube2.nums", rd2[1]["atcorenums"])
         R.call("UniformGrid.save", ug.save, _tmp("ugrid.npz"))
+        R.use_setters(ug, "ug", rng)
+        R.keep("ug.int-after-set", R.call("UniformGrid.integrate", ug.integrate, vals))
         lg = R.call("UniformGrid.get_localgrid", ug.get_localgrid, P[0], 0.6)
         R.keep("ug.mom", R.call("UniformGrid.moments", ug.moments, 1, P[:2], vals, "radial"))
     atnums, atcoords = _molecule(mk, rng, natom=3)
@@ -860,6 +963,9 @@ def scn_cubic(R, rng):
         R.keep("tg.itp", R.call("Tensor1DGrids.interpolate", tg.interpolate, mk(mid, "tpoints"), vals))
         R.keep("tg.itp-lin", R.call("Tensor1DGrids.interpolate", tg.interpolate, mk(mid, "tpoints2"), vals, method="linear"))
         R.call("Tensor1DGrids.save", tg.save, _tmp("tgrid.npz"))
+        R.use_setters(tg, "tg", rng)
+        R.keep("tg.int-after-set", R.call("Tensor1DGrids.integrate", tg.integrate, vals))
+        R.use_setters(ods[0], "oned0", rng)
     t2 = R.call("Tensor1DGrids", Tensor1DGrids, ods[0], ods[0] if mk.alias else ods[1])
     if t2 is not None:
         R.keep("t2.w", t2.weights)
@@ -901,10 +1007,8 @@ def scn_periodic(R, rng):
                 if s is not None:
                     R.keep(lab + ".item", s.points)
             R.keep(lab + ".props", np.concatenate([np.ravel(pg.realvecs), np.ravel(pg.recivecs), np.ravel(pg.spacings), np.ravel(pg.frac_intvls)]))
-            if R.pick([False, True]):  # documented: the points may be reassigned (same shape)
-                newp = mk(np.array(pg.points) * 1.0 + (0.05 if dim > 1 or nvec else 0.0), "new-points")
-                with R.ctx.guard("no-exception", f"PeriodicGrid.points=[{mk.mode}]"):
-                    pg.points = newp
+            if R.pick([False, True]):  # documented: points / weights may be reassigned (same shape)
+                R.use_setters(pg, lab, rng)
                 lg = R.call("PeriodicGrid.get_localgrid", pg.get_localgrid, c, 0.9)
                 if lg is not None:
                     R.keep(lab + ".lw-after-set", np.sort(lg.weights))
@@ -917,8 +1021,8 @@ def scn_ngrid(R, rng):
 
     mk = R.mk
     n1, n2 = int(rng.integers(3, 8)), int(rng.integers(3, 9))
-    g1 = OneDGrid(mk(np.sort(rng.uniform(0, 1, n1)), "g1.points"), mk(rng.uniform(0.1, 0.4, n1), "g1.weights"), (0, 1))
-    g2 = OneDGrid(mk(np.sort(rng.uniform(0, 2, n2)), "g2.points"), mk(rng.uniform(0.1, 0.4, n2), "g2.weights"), (0, 2))
+    g1 = OneDGrid(mk(R.arrange(rng.uniform(0, 1, n1)), "g1.points"), mk(rng.uniform(0.1, 0.4, n1), "g1.weights"), (0, 1))
+    g2 = OneDGrid(mk(R.arrange(rng.uniform(0, 2, n2)), "g2.points"), mk(rng.uniform(0.1, 0.4, n2), "g2.weights"), (0, 2))
     g3 = Grid(mk(rng.normal(size=(n2, 3)), "g3.points"), mk(rng.uniform(0.1, 0.4, n2), "g3.weights"))
     cache, cache1 = {}, {}
     buf = np.full(64, 0.5)
@@ -969,6 +1073,7 @@ def scn_coulomb_utils(R, rng):
     r = np.abs(rng.normal(size=n)) * 2
     r[0] = 0.0
     r[1] = 1e-14
+    r = R.arrange(r)
     ra = mk(r, "r")
     for norm in (True, False):
         R.keep(f"cgs{norm}", R.call("coulomb_gaussian_s", coulomb_gaussian_s, ra, 0.7, norm))
@@ -1345,6 +1450,15 @@ def run_ode_data(ctx, p):
                 ctx.discard("runaway solve: callback call budget exceeded")
         changed = [k for k in data if not _same(data[k], pristine[k])]
         ctx.check("caller-data-unchanged-after-sequence", f"solve_ode_{solver}[order={order},data={kind}]", not changed, sig="changed:" + ",".join(changed), detail={"changed": changed, "tf": p["tf"], "read_only": ro, "before": {k: pristine[k] for k in changed}, "after": {k: data[k] for k in changed}})
+        if solver == "ivp" and kind in ("list", "float64-array"):  # the interval given backwards (as grid.poisson does): integrate from hi to lo
+            span_r = _as_kind([hi, lo], kind, ro)
+            y0_r = _as_kind(y0_vals, kind, ro)
+            data_r = {"x_span": span_r, "y0": y0_r}
+            prist_r = _deep(data_r)
+            with ctx.guard("no-exception", subject + "[reversed interval]"):
+                solve_ode_ivp(span_r, cbf.make("fresh-x", 1.0), list(coeffs_num), y0_r, tf, "RK45", True, 1e-6, 1e-6)
+            ch = [k for k in data_r if not _same(data_r[k], prist_r[k])]
+            ctx.check("caller-data-unchanged-after-sequence", f"solve_ode_ivp[order={order},data={kind},reversed-interval]", not ch, sig="changed:" + ",".join(ch), detail={"changed": ch, "tf": p["tf"]})
         if val is None:
             continue
         if ref is None:
